@@ -502,6 +502,22 @@ func pumpModel(family string, n int) *openfgav1.AuthorizationModel {
 			}
 			sb.WriteString("\n")
 		}
+	case "nestleft", "nestright", "nestmixed": // operators nested n deep: (((a or a) or a) or a) / a or (a or (a or a)) / alternating operators, both sides
+		ops := []string{"or", "and", "but not"}
+		expr := "a"
+		for i := 0; i < n; i++ {
+			op := "or"
+			if family == "nestmixed" {
+				op = ops[i%3]
+			}
+			switch {
+			case family == "nestleft" || (family == "nestmixed" && i%2 == 0):
+				expr = "(" + expr + ") " + op + " a"
+			default:
+				expr = "a " + op + " (" + expr + ")"
+			}
+		}
+		sb.WriteString("    define a: [user]\n    define w: " + expr + "\n")
 	case "wideunion":
 		sb.WriteString("    define a: [user]\n    define w: a")
 		for i := 0; i < n; i++ {
